@@ -24,6 +24,32 @@ def repo_state():
         return 'unknown'
 
 
+def run_kani(harness, timeout=1500):
+    """bounded stand-in: one Kani harness of hooks/in_crate.rs inside the real crate; scratch target dir removed afterwards"""
+    import shutil
+    import tempfile
+    target = tempfile.mkdtemp(prefix='vx_kani_', dir=os.environ.get('VX_SCRATCH', '/var/tmp'))
+    env = dict(os.environ, STAM_VERIF_DIR=VERIF, CARGO_NET_OFFLINE='true')
+    cmd = ['cargo', 'kani', '--manifest-path', os.path.join(gen.REPO, 'Cargo.toml'), '--target-dir', target, '--harness', harness]
+    t0 = time.time()
+    try:
+        p = subprocess.run(cmd, capture_output=True, text=True, env=env, timeout=timeout, cwd=gen.REPO)
+        out = p.stdout + p.stderr
+    except subprocess.TimeoutExpired:
+        out = 'TIMEOUT'
+    finally:
+        shutil.rmtree(target, ignore_errors=True)
+    dt = time.time() - t0
+    if 'VERIFICATION:- SUCCESSFUL' in out:
+        status = 'passed'
+    elif 'VERIFICATION:- FAILED' in out:
+        status = 'failed'
+    else:
+        status = 'undetermined'
+    failed = [ln.strip() for ln in out.splitlines() if 'Status: FAILURE' in ln or ln.strip().startswith('Failed Checks')][:6]
+    return dict(harness=harness, status=status, time_s=round(dt, 1), cmd=' '.join(cmd), failed_checks=failed, tail=out[-1500:] if status != 'passed' else '')
+
+
 def decide(prop, tier='quick', rlimit=None):
     t0 = time.time()
     if prop not in PROPERTIES:
@@ -112,6 +138,21 @@ def decide(prop, tier='quick', rlimit=None):
                 pass
         for rw in r.unit.rewrite_log:
             rewrites.append(f"{rw['rule']} {rw['at']}")
+    # --------------------------------------------------------------- bounded stand-ins (thorough tier only)
+    bounded = []
+    if tier == 'thorough':
+        for h in conf.get('kani', []):
+            b = run_kani(h['harness'])
+            b['bound'] = h['bound']
+            b['real_function'] = h['function']
+            bounded.append(b)
+            if b['status'] == 'failed':
+                violations.append(dict(fn=h['function'], clause=None, msg='Kani: assertion/overflow failure within the stated bound', src=None, rendered=b['tail'],
+                                       props=[prop], file=h.get('file', ''), line=0, cid=f"{h['function']}/bounded[{h['harness']}]", unit='kani'))
+            elif b['status'] == 'undetermined':
+                infra.append(f"[kani] harness {h['harness']} did not finish: {b['tail'][-300:]}")
+    else:
+        bounded = [dict(harness=h['harness'], bound=h['bound'], real_function=h['function'], status='not run in the quick tier') for h in conf.get('kani', [])]
     # --------------------------------------------------------------- output
     os.makedirs(EVID, exist_ok=True)
     rc = 0
@@ -166,7 +207,7 @@ def decide(prop, tier='quick', rlimit=None):
             solver='Verus 0.2026.09.13 -> Z3 (bundled)', solver_ms=smt_ms, rlimit=rl,
             units=units, repo_state=repo_state(),
             known_findings=[dict(clause=k['clause'], text=k['text']) for k, _ in known_hits],
-            bounded=[],
+            bounded=bounded,
             explanation=conf.get('explanation', ''),
             obligation_counting="per function under contract: one obligation per ensures clause plus one for safety (arithmetic overflow, bounds, callee preconditions, unreachable!/panic freedom, termination); counted from the generated file of this run",
         ),
